@@ -228,7 +228,9 @@ def check_property(prop, tier, seed):
             'functions_proved': proved_fns,
             'callee_contracts_not_discharged_in_this_run': {c: how for r in pres for c, how in r.get('callee_contracts', {}).items()
                                                              if c not in proved_fns},
-            'functions_bounded_only': spec.get('bounded_only', []),
+            # the registry lists what the bounded suite exercises; what is proved in this run is taken out of the "bounded only" list
+            'functions_bounded_only': [b_ for b_ in spec.get('bounded_only', [])
+                                       if not any(b_.split('(')[0].strip().split('.')[-1] == (fn_status[k_].get('qualname') or k_).split('.')[-1] for k_ in proved_fns)],
             'bridge_lemmas': [{'file': l['file'], 'accepted_by_lean': l['ok'], 'theorems': l['theorems'], 'secs': l['secs']} for l in lres],
             'trusted_base': spec.get('trusted_base', []) + COMMON_ASSUMPTIONS['trusted_base'],
             'evaluations': total_evals, 'distinct_nontrivial': nontriv,
